@@ -48,6 +48,15 @@ func emit(format string, args ...any) {
 	fmt.Fprintf(outW, format+"\n", args...)
 }
 
+// flushOut writes buffered lines through (before a likely kill)
+func flushOut() {
+	outMu.Lock()
+	defer outMu.Unlock()
+	if outW != nil {
+		outW.Flush()
+	}
+}
+
 func seed() uint64 {
 	s := os.Getenv("VERIF_SEED")
 	if s == "" {
